@@ -31,6 +31,7 @@ K_ORPHAN = 'rejected-add-leaves-orphan-nodes'
 K_LITSRC = 'literal-segment-unescaped-in-finder-source'
 K_CXBACKSLASH = 'complex-segment-backslash-unescaped-in-regex'
 K_NEWLINE = 'complex-segment-matches-before-trailing-newline'
+K_IDENT_NL = 'field-name-with-trailing-newline-accepted'
 
 MAX_KEYED = 150_000          # per shard: non-trivial lookups remembered individually
 
@@ -146,6 +147,19 @@ def make_tagger(prefix, veto_first):
 TaggerA, TaggerB = make_tagger('A:', 'a'), make_tagger('B:', 'b')
 
 
+class PluginConv(BaseConverter):
+    """A converter that runs user code once while the lookup that called it is still in flight
+    (lazy route registration, a nested lookup).  `hook` is armed by the check for one lookup."""
+    hook = None
+
+    def convert(self, value):
+        h = PluginConv.hook
+        if h is not None:
+            PluginConv.hook = None
+            h(value)
+        return None if value.startswith('n') else 'P:' + value
+
+
 RES_MODES = {       # which kind of resource object the n-th add of a world registers
     0: [Res], 1: [DictRes], 2: [Res, DictRes], 3: [BoolRes, Res], 4: [Res, LenRes, DictRes], 5: [LenRes, BoolRes],
 }
@@ -197,6 +211,15 @@ def has_hostile_literal(template):
     return any(("'" in s or '\\' in s) and not M.FIELD.search(s) for s in M.split_template(template))
 
 
+def has_newline_simple_field(template):
+    """A whole-segment field expression whose field name ends in a newline."""
+    for s in M.split_template(template):
+        m = M.FIELD.fullmatch(s)
+        if m and m.group(1).endswith('\n'):
+            return True
+    return False
+
+
 def has_backslash_complex(template):
     for s in M.split_template(template):
         fields = list(M.FIELD.finditer(s))
@@ -216,6 +239,7 @@ def make_router(profile, late=False):
     conv['rest'] = RestConv
     conv['tagA'] = TaggerA
     conv['tagB'] = TaggerB
+    conv['plug'] = PluginConv
     if profile == 'alt':
         conv['int'] = HexIntConv
         conv['veto'] = AltVetoConv
@@ -376,6 +400,11 @@ def judge(w, path):
     except Exception as ex:  # noqa
         got = Raised(ex)
     want = w.model.find(path)
+    return diff(got, want)
+
+
+def diff(got, want):
+    """got: what router.find returned (or Raised); want: what the reference walk returned."""
     if isinstance(got, Raised):
         return 'find-raised', summary(got), summary(want)
     if want is None:
@@ -444,6 +473,7 @@ def candidates(ops):
         (K_LITSRC, {i for i, o in enumerate(ops) if o[0] == 'add' and has_hostile_literal(o[1])}),
         (K_CXBACKSLASH, {i for i, o in enumerate(ops) if o[0] == 'add' and has_backslash_complex(o[1])}),
         (K_ORPHAN, {i for i, o in enumerate(ops) if o[0] == 'add' and o[3] != 'ok' and o[4]}),
+        (K_IDENT_NL, {i for i, o in enumerate(ops) if o[0] == 'add' and has_newline_simple_field(o[1])}),
     ]
     return [(k, s) for k, s in cands if s]
 
@@ -468,14 +498,14 @@ def shrink(ops, path, kind, budget=80):
 def report(rec, w, path, verdict):
     kind, got, want = verdict
     key = classify(w, path, kind)
-    ops = w.ops
-    wit = {'path': path, 'got': got, 'want': want}
+    # the witness is the history exactly as generated (it is what was classified and what --replay
+    # re-executes); a greedily shrunk history is attached for reading only
+    wit = {'path': path, 'got': got, 'want': want, 'ops': [list(o) for o in w.ops], 'attributed_to': key}
     if key is None or key not in rec.known_keys:
         if rec.counters.get('violations', 0) < 5:
-            ops = shrink(ops, path, kind)
-            if len(ops) != len(w.ops):
-                wit['ops_before_shrinking'] = [list(o) for o in w.ops]
-    wit['ops'] = [list(o) for o in ops]
+            small = shrink(w.ops, path, kind)
+            if len(small) != len(w.ops):
+                wit['ops_shrunk_for_reading'] = small
     rec.violation(kind, wit, known_key=key)
     return key
 
